@@ -144,11 +144,10 @@ type caseRun struct {
 
 	actions []*action
 
-	mu        sync.Mutex
-	modified  map[string]int // directory digest key -> index of an action that changed its copy
-	sits      map[string]int
-	violated  bool
-	histories []string
+	mu       sync.Mutex
+	modified map[string]int // directory digest key -> index of an action that changed its copy
+	sits     map[string]int
+	violated bool
 }
 
 func (c *caseRun) situation(name string) {
